@@ -591,7 +591,9 @@ def judge_op(spec, codec, scenario, op, evs, probes):
             got = codec.parse(m["input"], bytes.fromhex(a["reqs"][0]))
         exp = type(base)()
         exp.CopyFrom(base)
-        exp.page_token = tok
+        if tok != "" or i > 0:
+            exp.page_token = tok      # (the first fetch carries the caller's own field untouched: for a proto3-optional
+                                      #  page_token an unset cursor stays unset)
         if got != exp:
             if got.page_token != tok:
                 return V("wrong_token", f"fetch of page {i} carried page_token={got.page_token!r}, expected {tok!r}"
